@@ -72,7 +72,8 @@ pub fn on_end(o: &mut Observer, end_us: u64) {
         // been repeated, for the same block, to somebody else.
         if let (Some(l), Some((p, t0, t1))) = (b.lagger, b.deaf) {
             let retry = o.ext.params.get(l).map_or(0, |x| x.sync_retry_delay * 1_000);
-            let period = retry + 5_000_000 + 2_000_000;
+            // One retry delay plus twice the 5 s granularity of the retry timer plus slack.
+            let period = retry + 12_000_000;
             let reqs = o.ext.sync_requests[l].clone();
             let mut checked = 0;
             let mut missing: Option<(u64, crypto::Digest)> = None;
